@@ -136,7 +136,12 @@ def family(tier):
               [(0, o) for o in OPS], 3, 3))
     # hold-for-duration D in {2,3} (+ re-arming, + explicit operations in between)
     F.append(("hfd2", [x], {"a": cust([hfd(1, 2)]), "b": cust([op(1, "toggle")])}, [(0, "tap"), (0, "release")], 3, 3))
-    F.append(("hfd3", [x], {"a": cust([hfd(1, 3)]), "b": cust([hfd(1, 2)])}, [(0, "press")], 3, 3))
+    # two hold-for-duration actions with different times on the same virtual key: the time of the MOST RECENT
+    # activation counts (4 then 2 while pending => released 2 after the second; 3/2 cannot tell: one tick-end has
+    # passed before the second key can be processed)
+    F.append(("hfd42", [x], {"a": cust([hfd(1, 4)]), "b": cust([hfd(1, 2)])}, [(0, "press")], 3, 3))
+    if tier != "quick":
+        F.append(("hfd3", [x], {"a": cust([hfd(1, 3)]), "b": cust([hfd(1, 2)])}, [(0, "press")], 3, 3))
     # on-idle D in {2,3}
     F.append(("idle2", [x], {"a": cust([idle(1, "tap", 2)]), "b": pr}, [(0, "toggle")], 3, 3))
     F.append(("idle3", [x, y], {"a": cust([idle(1, "press", 3)]), "b": cust([idle(2, "tap", 2)], [op(1, "release")])},
@@ -251,6 +256,27 @@ def equiv_instance():
     return [VK_KEY("x")], kdesc, [(0, o) for o in OPS]
 
 
+def hfd_real_instance():
+    """Realistic durations (recorded traces only): long and short hold-for-duration on the same virtual key."""
+    return [VK_KEY("x")], {"a": cust([hfd(1, 100)]), "b": cust([hfd(1, 30)]), "c": cust([op(1, "release")])}
+
+
+def hfd_real_scripts(rng, n):
+    C = cfgdesc.code
+    tap = lambda k, g: [["d", C(k)], ["t", g], ["u", C(k)]]
+    S = [tap("a", 1) + [["t", 19]] + tap("b", 1) + [["t", 150]],        # 100 then 30 while pending: up 30 after b
+         tap("b", 1) + [["t", 9]] + tap("a", 1) + [["t", 150]],         # 30 then 100: extended
+         tap("a", 1) + [["t", 98]] + tap("b", 1) + [["t", 150]],        # re-armed on the last tick of the hold
+         tap("a", 1) + [["t", 99]] + tap("b", 1) + [["t", 150]],        # one tick too late: released and pressed again
+         tap("a", 1) + [["t", 40]] + tap("c", 1) + [["t", 5]] + tap("b", 1) + [["t", 150]]]
+    for _ in range(n):
+        s = []
+        for _ in range(rng.randint(2, 6)):
+            s += tap(rng.choice("aabbc"), rng.choice([1, 2])) + [["t", rng.choice([1, 5, 28, 29, 30, 31, 60, 98, 99, 100, 101, 130])]]
+        S.append(s + [["t", 140]])
+    return S
+
+
 def seq_instance():
     """The sequence-termination trigger (defseq): not in the L1 model; covered by recorded traces only."""
     vks = [VK_KEY("x"), VK_KEY("y")]
@@ -322,6 +348,10 @@ def run(tier, seed):
     jobs_random.append({"cfg": kbd, "params": params, "tag": "s:seq",
                         "scripts": [seq_script(rng, rng.randint(1, 5)) for _ in range(30 if tier == "quick" else 200)]})
     res.samples.append({"instance": "seq (recorded traces only)", "kbd": kbd})
+    vks, kdesc = hfd_real_instance()
+    kbd, params = make(vks, kdesc)
+    jobs_random.append({"cfg": kbd, "params": params, "tag": "h:hfd_real",
+                        "scripts": hfd_real_scripts(rng, 20 if tier == "quick" else 200)})
     vks, kdesc, direct = equiv_instance()
     kbd, params = make(vks, kdesc)
     jobs_random.append({"cfg": kbd, "params": params, "tag": "e:equiv",
